@@ -163,6 +163,56 @@ def replay(flavour, h, notes=None):
     return None
 
 
+def memo_path(ctx):
+    """the whole transmit path an application uses: memoit() -> serviceTxMemos (rend into grams) -> serviceTxGrams under back
+    pressure: per destination the transport must have accepted exactly the grams a twin sender rends for the same memos,
+    in order.  (The histories of the model queue grams directly with gramit().)"""
+    from hio.core.memo import memoing
+    memos = [("first memo " * 9, "d1"), ("zweites m\u00e9mo \u2603 " * 7, "d2"), ("x", "d1"), ("third " * 30, "d1")]
+    mids = ["0A" + "%022d" % i for i in range(1, 50)]
+    for size in (None, 64, 99):
+        for pattern in ([("acc", 99)], [("acc", 1)], [("acc", 7), ("acc", 0)], [("acc", 0), ("acc", 0), ("acc", 13)], [("acc", 40), ("acc", 0), ("acc", 3)]):
+            for entry in ("serviceAllTxOnce", "serviceAllTx", "serviceAllOnce"):
+                ctx.case(("memo-path", size, tuple(pattern), entry))
+                script = Script()
+                m = make("memoer", script)
+                twin = memoing.Memoer(size=size) if size else memoing.Memoer()
+                if size:
+                    m.size = size
+                seq = iter(mids)
+                m.makeMID = lambda: next(seq)
+                seq2 = iter(mids)
+                twin.makeMID = lambda: next(seq2)
+                want = {"d1": bytearray(), "d2": bytearray()}
+                try:
+                    with core.watchdog():
+                        for memo, d in memos:
+                            m.memoit(memo, DST["memoer"][d])
+                            for g in twin.rend(memo):
+                                want[d].extend(g)
+                        for k in range(400):
+                            script.plan = [pattern[k % len(pattern)]]
+                            getattr(m, entry)()
+                            script.plan = []
+                        for _ in range(3):
+                            m.serviceAllTx()
+                except core.Hang:
+                    ctx.violation("memo path (%s, pattern %s): did not return" % (entry, pattern), {"memo_path": [size, pattern, entry]})
+                    continue
+                except Exception as ex:
+                    ctx.violation("memo path (%s, pattern %s): raised %s: %s" % (entry, pattern, type(ex).__name__, ex),
+                                  {"memo_path": [size, pattern, entry]})
+                    continue
+                for d in ("d1", "d2"):
+                    got = bytes(script.wire.get(DST["memoer"][d], b""))
+                    if got != bytes(want[d]):
+                        n = next((i for i, (a, b) in enumerate(zip(got, want[d])) if a != b), min(len(got), len(want[d])))
+                        ctx.violation("memo path (%s, gram size %s, acceptance pattern %s): the transport accepted %d bytes for %s, the memos rend "
+                                      "into %d bytes; first difference at byte %d" % (entry, size, pattern, len(got), d, len(want[d]), n),
+                                      {"memo_path": [size, pattern, entry]})
+                        break
+
+
 def run(ctx):
     consts = {"Dsts": {"d1", "d2"}, "Lens": {1, 3}, "MaxGrams": 3, "MaxOps": 7 if ctx.quick else 9}
     r = ctx.tlc("memo", "TxPressure", core.cfg_text(constants=consts, invariants=["WireExact", "NoLoss", "OneInFlight"], view="MCView"))
@@ -185,6 +235,7 @@ def run(ctx):
                 ctx.violation("%s: %s" % (flavour, bad), {"flavour": flavour, "history": h})
             elif notes:
                 ctx.divergence("%s: %s" % (flavour, notes[0]))
+    memo_path(ctx)
     ctx.exhaustive = True
     return ctx.finish(rule="one case per (Memoer with scripted send | UDP PeerMemoer | UXD PeerMemoer on a scripted socket, history); "
                            "histories: all of length 3 (quick) / 4 + simulated ones of length 10/14 over queue, single service call (alternately "
@@ -194,5 +245,9 @@ def run(ctx):
 
 
 def replay_case(ctx, case):
+    if "memo_path" in case:
+        n = len(ctx.violations)
+        memo_path(ctx)
+        return [ctx.violations[n][0]] if len(ctx.violations) > n else []
     bad = replay(case["flavour"], case["history"])
     return [bad] if bad else []
